@@ -59,13 +59,16 @@ def _vals(x):
     return list(np.asarray(x, dtype=object).reshape(-1))
 
 
-def h_rg(B, shape, harmonic):
+def h_rg(B, shape, harmonic, scalar=False):
     shape = tuple(shape)
     nd = len(shape)
     d = B.reals("d", (nd,))
     B.assume_all([t > 0 for t in d])
-    dist = tuple(d) if nd > 1 else d[0]
+    if scalar:                    # one scalar distance for all axes (documented: the same distance along each axis)
+        d = np.array([d[0]] * nd, dtype=object if B.mode == "sym" else np.float64)
+    dist = d[0] if (nd == 1 or scalar) else tuple(d)
     dom = ift.RGSpace(shape, distances=dist, harmonic=harmonic)
+    B.eq("the grid distances are the ones given", list(dom.distances), list(d))
     size = int(np.prod(shape))
     # volumes
     dv = dom.dvol
@@ -244,6 +247,7 @@ def h_identity(B, steps):
 def scenarios(tier, seed):
     quick = [("rg", {"shape": [4], "harmonic": True}), ("rg", {"shape": [5], "harmonic": False}),
              ("rg", {"shape": [2, 3], "harmonic": True}), ("rg", {"shape": [3, 2], "harmonic": False}),
+             ("rg", {"shape": [2, 3], "harmonic": True, "scalar": True}), ("rg", {"shape": [3, 2], "harmonic": False, "scalar": True}),
              ("power", {"n": 4, "binning": "natural"}), ("power", {"n": 5, "binning": "2"}),
              ("identity", {"steps": 2})]
     thorough = [("rg", {"shape": [7], "harmonic": True}), ("rg", {"shape": [3, 4], "harmonic": True}),
